@@ -46,8 +46,8 @@ void probe(cv_i32 tag) { gh_pr_calls++; gh_pr_allocs = gh_allocs; gh_pr_frees = 
   if ((outcome) == 2) __CPROVER_assert(REC->has_value == 0 && REC->exc_canceled == 1 && REC->exc_error + REC->exc_other == 0, "dropped promise: the completion sees the broken-promise state (await_canceled_exception)"); } while (0)
 #ifdef DRIVE_cbawait
 void h_drive(void) {
-  int v = nondet_unsigned(), e = nondet_unsigned();
-  int outcome = nondet_unsigned(); __CPROVER_assume(outcome <= 2);      /* value / exception / dropped promise: symbolic */
+  int in_v = nondet_unsigned(), in_e = nondet_unsigned(), in_outcome = nondet_unsigned(); __CPROVER_assume(in_outcome <= 2);      /* outcome: value / exception / dropped promise (symbolic); in_*: passed to the native replay */
+  int v = in_v, e = in_e, outcome = in_outcome;
   int before = DRIVE_BEFORE, counting = DRIVE_COUNTING;          /* concrete per unit: symbolic control forks the lowered state machines beyond reach (measured) */
   unsigned a0 = gh_allocs, f0 = gh_frees;
   c18_drive(outcome, before, counting, v, e);
@@ -65,7 +65,8 @@ void h_drive(void) {
 #endif
 #ifdef DRIVE_mp
 void h_drive(void) {
-  int v = nondet_unsigned(), e = nondet_unsigned(), outcome = nondet_unsigned(); __CPROVER_assume(outcome <= 2);
+  int in_v = nondet_unsigned(), in_e = nondet_unsigned(), in_outcome = nondet_unsigned(); __CPROVER_assume(in_outcome <= 2);
+  int v = in_v, e = in_e, outcome = in_outcome;
   unsigned a0 = gh_allocs, f0 = gh_frees;
   c18_drive_mp(outcome, DRIVE_COUNTING, v, e);
   __CPROVER_assert(cv_exc_pending == 0 && gh_pr_calls == 1, "no exception escapes");
@@ -80,7 +81,8 @@ void h_drive(void) {
 #endif
 #ifdef DRIVE_discard
 void h_drive(void) {
-  int v = nondet_unsigned(), e = nondet_unsigned(), outcome = nondet_unsigned(); __CPROVER_assume(outcome <= 2);
+  int in_v = nondet_unsigned(), in_e = nondet_unsigned(), in_outcome = nondet_unsigned(); __CPROVER_assume(in_outcome <= 2);
+  int v = in_v, e = in_e, outcome = in_outcome;
   unsigned a0 = gh_allocs, f0 = gh_frees;
   c18_drive_discard(outcome, DRIVE_BEFORE, v, e);
   __CPROVER_assert(cv_exc_pending == 0 && gh_pr_calls == 1, "no exception escapes");
@@ -91,7 +93,8 @@ void h_drive(void) {
 #endif
 #ifdef DRIVE_cfa
 void h_drive(void) {
-  int v = nondet_unsigned(), e = nondet_unsigned(), outcome = nondet_unsigned(); __CPROVER_assume(outcome <= 2);
+  int in_v = nondet_unsigned(), in_e = nondet_unsigned(), in_outcome = nondet_unsigned(); __CPROVER_assume(in_outcome <= 2);
+  int v = in_v, e = in_e, outcome = in_outcome;
   unsigned a0 = gh_allocs, f0 = gh_frees;
   c18_drive_cfa(outcome, DRIVE_BEFORE, v, e);
   __CPROVER_assert(cv_exc_pending == 0 && gh_pr_calls == 1, "no exception escapes");
@@ -105,7 +108,8 @@ void h_drive(void) {
 #ifdef DRIVE_conv
 #define LREC (G_LREC)
 void h_drive(void) {
-  int v = nondet_unsigned(), e = nondet_unsigned(), add = nondet_unsigned(), outcome = nondet_unsigned(), cthrows = nondet_bool(); __CPROVER_assume(outcome <= 2);
+  int in_v = nondet_unsigned(), in_e = nondet_unsigned(), add = nondet_unsigned(), in_outcome = nondet_unsigned(), cthrows = nondet_bool(); __CPROVER_assume(in_outcome <= 2);
+  int v = in_v, e = in_e, outcome = in_outcome;
   unsigned a0 = gh_allocs, f0 = gh_frees;
   c18_drive_conv(outcome, DRIVE_BEFORE, cthrows, v, e, add);
   __CPROVER_assert(cv_exc_pending == 0 && gh_pr_calls == 1, "no exception escapes");
